@@ -337,6 +337,7 @@ class GeneralSurrogate:
         if self.numElements == 2:
             dnkjFit = np.atleast_2d(dnkj).T
         else:
+            dnkj = np.array(dnkj)
             dnkjFit = np.reshape(dnkj, (dnkj.shape[0], dnkj.shape[1]*dnkj.shape[2]))
         dtracerFit = np.atleast_2d(dtracer)
         yTrain = np.concatenate((dnkjFit, dtracerFit), axis=1)
